@@ -675,9 +675,10 @@ func (p *Primary) resendEntries(session *ReplicaSession, fromSequence uint64) er
 // getWALEntriesFromSequence retrieves WAL entries starting from the specified sequence
 // in batches of up to maxEntriesToReturn entries at a time
 func (p *Primary) getWALEntriesFromSequence(fromSequence uint64) ([]*wal.Entry, error) {
-	p.mu.RLock()
-	defer p.mu.RUnlock()
-
+	// The sessions lock (p.mu) is NOT taken here: nothing below touches the sessions, and
+	// reading the WAL takes the WAL lock, which a writer holds while it notifies this
+	// primary and takes p.mu. Holding p.mu while waiting for the WAL lock closes a cycle
+	// as soon as a registration or removal of a session is pending on p.mu.
 	// Get current sequence in WAL (next sequence - 1)
 	// We subtract 1 to get the current highest assigned sequence
 	currentSeq := p.currentWAL().GetNextSequence() - 1
